@@ -39,7 +39,8 @@ impl PnmOut {
 // ---------------------------------------------------------------------------
 
 fn gen_pix(rng: &mut Rng) -> Pix {
-    match rng.below(10) {
+    match rng.below(12) {
+        10 | 11 => Pix::Runs(rng.u64()),
         0..=4 => Pix::Seeded(rng.u64()),
         5 => Pix::Const(*rng.pick(&[0u8, 255, b' ', b'\n', b'#', b'0', b'P', 128])),
         _ => {
@@ -57,6 +58,11 @@ fn gen_dims(rng: &mut Rng) -> (u32, u32) {
         1 => (rng.range(1, 400) as u32, 1),
         // crossing the 8 KiB default buffer capacity: 3*w*h > 8192
         2 | 3 => (rng.range(40, 80) as u32, rng.range(40, 80) as u32),
+        // four-digit dimensions, a few rows or columns
+        4 if rng.chance(1, 2) => {
+            let (a, b) = (rng.range(1000, 3000) as u32, rng.range(1, 3) as u32);
+            if rng.chance(1, 2) { (a, b) } else { (b, a) }
+        }
         _ => (rng.small(48) as u32 + 1, rng.small(48) as u32 + 1),
     }
 }
